@@ -2,6 +2,7 @@ package rules
 
 import (
 	"go/token"
+	"go/types"
 
 	"golang.org/x/tools/go/ssa"
 
@@ -135,7 +136,11 @@ func runBuilderFresh(p *core.Program, r *core.Report) {
 // for it, so that extracting a helper does not orphan an audit entry.
 func uniqueCallerRoot(p *core.Program, fn *ssa.Function, depth int) *ssa.Function {
 	fn = core.Outer(fn)
-	if depth > 3 || fn.Pkg == nil || fn.Signature.Recv() != nil {
+	if depth > 3 || fn.Pkg == nil {
+		return fn
+	}
+	// a method may also be reached through an interface of its package
+	if fn.Signature.Recv() != nil && methodOfSomeInterface(fn) {
 		return fn
 	}
 	if obj := fn.Object(); obj == nil || obj.Exported() {
@@ -188,4 +193,25 @@ func uniqueCallerChain(p *core.Program, fn *ssa.Function) []*ssa.Function {
 		out = append(out, next)
 	}
 	return out
+}
+
+// methodOfSomeInterface: some interface type declared (or used as an embedded
+// or literal interface in a declaration) in fn's package has a method of fn's
+// name, so fn may be called dynamically.
+func methodOfSomeInterface(fn *ssa.Function) bool {
+	scope := fn.Pkg.Pkg.Scope()
+	for _, name := range scope.Names() {
+		tn, ok := scope.Lookup(name).(*types.TypeName)
+		if !ok {
+			continue
+		}
+		if it, ok := tn.Type().Underlying().(*types.Interface); ok {
+			for i := 0; i < it.NumMethods(); i++ {
+				if it.Method(i).Name() == fn.Name() {
+					return true
+				}
+			}
+		}
+	}
+	return false
 }
